@@ -467,6 +467,55 @@ def check_cases(res, cases, rng):
             res.sample(dict(filter=flt, case=text, delivered=obs[-1]))
 
 
+def boundary_probe(res):
+    """The exact tolerance boundary (outside the sixteenths grid of the Lean model): pairs of binary64 numbers whose
+    difference is computed exactly by float subtraction and is the tolerance itself, or one ulp below / above it.
+    Oracle from the statement: a value is a change iff it differs from the last delivered one by MORE than the
+    tolerance (exact rational comparison; for these magnitudes the relative tolerance of isclose is far smaller)."""
+    import asyncio
+    import math
+    from fractions import Fraction
+
+    from pyplumio import filters
+
+    tol = Fraction(filters.TOLERANCE)
+    below, above = math.nextafter(filters.TOLERANCE, 0.0), math.nextafter(filters.TOLERANCE, 1.0)
+    pairs = []
+    for a in (0.0, 0.1, -0.05, 1.0, 20.0, -3.5, 0.2):
+        for d in (filters.TOLERANCE, below, above, 0.0, 2 * filters.TOLERANCE):
+            for sign in (1, -1):
+                b = a + sign * d
+                if Fraction(b) - Fraction(a) == Fraction(b - a):       # the float subtraction is exact
+                    pairs.append((a, b))
+
+    async def drive(make, seq):
+        got = []
+
+        async def cb(v):
+            got.append(v)
+
+        f = make(cb)
+        for v in seq:
+            await f(v)
+        return got
+
+    for a, b in pairs:
+        changed = abs(Fraction(b) - Fraction(a)) > tol
+        res.case(("boundary", a, b), True)
+        res.count("boundary:" + ("changed" if changed else "within-tolerance"))
+        for name, make, want in (
+            ("on_change", filters.on_change, [a] + ([b] if changed else [])),
+            ("delta", filters.delta, ([b - a] if changed else [])),
+            ("debounce1", lambda cb: filters.debounce(cb, 1), [a] + ([b] if changed else [])),
+        ):
+            got = asyncio.run(drive(make, [a, b]))
+            if got != want:
+                res.fail("spec", dict(t="boundary", filter=name, values=[a.hex(), b.hex()], exact_difference=str(abs(Fraction(b) - Fraction(a))),
+                                      tolerance=str(tol)), [x.hex() for x in want], [x.hex() if isinstance(x, float) else repr(x) for x in got],
+                         f"{name}: a value that differs from the last delivered one by "
+                         + ("more than" if changed else "no more than") + " the tolerance is " + ("not delivered" if changed else "delivered"))
+
+
 def run(ctx):
     rng = random.Random(ctx["seed"] * 7919 + 20)
     res = Result("C20")
@@ -483,8 +532,10 @@ def run(ctx):
     if ctx.get("max_cases"):
         cases = cases[: ctx["max_cases"]]
     check_cases(res, cases, rng)
+    boundary_probe(res)
     res.notes.append("numbers are multiples of 1/16 below 10^6: differences are exact in binary64 and the relative tolerance of "
-                     "math.isclose (1e-9*10^6 < 0.1) is inert; decimal inputs exactly 0.1 apart are modelled, not exercised")
+                     "math.isclose (1e-9*10^6 < 0.1) is inert; decimal inputs whose exact difference is the binary64 tolerance (or one ulp around it) "
+                     "are exercised by the boundary probe against the statement (differs by MORE than the tolerance), outside the Lean model")
     res.notes.append("Parameter objects are not mixed with other kinds of value in one sequence")
     return res
 
@@ -494,5 +545,8 @@ def replay(ctx):
     f = r.get("failure") or r.get("first_difference")
     res = Result("C20")
     res.rule = "replay of one recorded call sequence"
+    if f["input"].get("t") == "boundary":
+        boundary_probe(res)
+        return res
     check_cases(res, [(parse_case(f["input"]["case"]), f["input"].get("label", "replay"))], random.Random(0))
     return res
